@@ -98,7 +98,7 @@ for e in ENGINES:
 
 PREEMPT_LEVEL = (" A second part (flow-preempt) adds statement-level scheduling points to the engine files named in lib/checks.py (lib/pointgen rewrites the overlay copy) and "
                  "sweeps a single preemption over every dynamic statement occurrence of small 1x1 scenarios, exploring the environment schedule around it with the remaining deviation budget.")
-for _id in ("C01", "C02", "C04", "C06", "C11", "C13"):
+for _id in ("C01", "C02", "C04", "C05", "C06", "C09", "C11", "C13"):
     TEXT[_id]["technique"] += " + single-preemption sweep over statement-level scheduling points (part flow-preempt)"
     TEXT[_id]["level"] += PREEMPT_LEVEL
 
@@ -119,5 +119,14 @@ TEXT["C19"]["level"] += (" Crash part: a helper process runs the real index.Save
                          "under strace fault injection (SIGKILL, EIO, ENOSPC at every file-system syscall of the write path; the helper runs single-threaded so that syscall ordinals are the same in every run); "
                          "afterwards the manifest must load through the real loader and hold exactly the previous or the new installs, every other file must be absent / previous or complete.")
 TEXT["C07"]["technique"] += " + full-stack differential run of both engines over every subset of rejected records (part engine-parity)"
-TEXT["C07"]["level"] += " Engine parity on the full stack: 1 source x 4 records, every subset rejected, windows {0/0,1/0,2/1,4/1,3/2}, default schedule: both engines must dead-letter the same records and agree on stopping (2-source pipelines are run and counted but not judged: v2's window is per source by design)."
+TEXT["C07"]["level"] += " Engine parity on the full stack: 1 source x 4 records x 1 destination and 1 source x 3 records x 2 destinations (d0 rejects), every subset rejected, windows {0/0,1/0,2/1,4/1,3/2}, default schedule: both engines must dead-letter the same records and agree on stopping (2-source pipelines are run and counted but not judged: v2's window is per source by design)."
 TEXT["C07"]["level"] += " On the full stack (single source, single destination, batch 1) the destination's outcome sequence of each run is fed to the same reference window: a tolerated rejection must reach the DLQ, a refused one may neither reach the DLQ nor be acknowledged."
+
+for _id in ("C01", "C04", "C05"):
+    TEXT[_id]["level"] += " The preemptive part also covers the funnel engine with TWO per-source workers converging on the shared destination branch (points in funnel/worker.go, destination.go, source.go; answers ok/nack), i.e. the interleavings of real engine goroutines that the scripted plugins cannot choose."
+TEXT["C17"]["technique"] += " + stateless schedule exploration of graceful shutdowns on the real full stack (part flow)"
+TEXT["C17"]["level"] += " Part flow decides the last clause ('a running pipeline is found again as one to be resumed') on the real engines: every schedule (deviation bound 2/3) of a graceful shutdown of a running pipeline, also with transient failures during the drain, must leave the status the next server start resumes (SystemStopped)."
+TEXT["C20"]["technique"] += " + stateless schedule exploration of fatal causes on the real full stack (part flow)"
+TEXT["C20"]["level"] += " Part flow closes the gap between the constructor alphabet and the engines' own wrappers: every fatal cause (DLQ rejects / fails, threshold exceeded, processor error not absorbed) is injected on the real stack of both engines through each path it can take (destination acker, processor node, parallel processor node, fan-out siblings) in every schedule up to the deviation bound; the pipeline must degrade, i.e. the fatal mark survived every wrapper between the node and the lifecycle service."
+TEXT["C19"]["level"] += " Install histories are also started from a non-initial state in which files nobody verified already sit at the final names: an install that passed every gate must leave the verified bytes there."
+TEXT["C18"]["level"] += " Allowlists include one with two carve-outs of different addresses and different ports (only the listed pairs may be dialled, never the cross pairs)."
